@@ -6,6 +6,7 @@
 //!                               (→ `contact_manifolds_composite_shape_composite_shape`), manifolds + workspace reused;
 //!                               observed: the part boxes, and per call `flipped`, the outer query box, the visited outer leaves
 //!                               with their inner query boxes and visited inner leaves, and the manifolds of a FRESH computation at that pose
+//!   cap3 pos12 a1 b1 r1 a2 b2 r2 pred manifold   3-D `contact_manifold_capsule_capsule` called directly, arbitrary axes
 //!   pfm3 kind a b pred nposes pose*   pose history of a pfm/pfm pair whose support features are EDGES (capsule / cylinder /
 //!                               cone / segment sides): one-shot reference ;; manifold after every call (oracle only)
 use super::*;
@@ -129,6 +130,14 @@ pub fn exec(func: &str, a: &mut Args) -> String {
                 Some((ca, cb)) => format!("some {} {}", fclip2(&ca), fclip2(&cb)) } }
         "cc3" => cc3(a),
         "pfm3" => pfm3(a),
+        "cap3" => { use crate::p3::shape::Capsule;
+            let p = d3::iso(a);
+            let a1 = d3::p(a); let b1 = d3::p(a); let r1 = a.f();
+            let a2 = d3::p(a); let b2 = d3::p(a); let r2 = a.f();
+            let pred = a.f();
+            let mut m = man3(a);
+            crate::p3::query::details::contact_manifold_capsule_capsule(&p, &Capsule::new(a1, b1, r1), &Capsule::new(a2, b2, r2), pred, &mut m);
+            fman3(&m) }
         _ => "nofn".into(),
     }
 }
@@ -285,6 +294,59 @@ fn gen_pfm3(r: &mut Rng, lat: bool, kind: usize, maxposes: usize) -> (String, St
     ("pfm3".into(), s)
 }
 
+/// 3-D capsules with arbitrary axes: parallel / anti-parallel / tilted (coplanar and skew) / crossing / collinear / point-like,
+/// every lengthwise overlap, gaps around 0 and around the prediction
+fn gen_cap3(r: &mut Rng, lat: bool, fam: usize) -> (String, String) {
+    let pos12 = d3::gen_iso(r, lat, 4.0);
+    let rad = |r: &mut Rng| if lat { *r.pick(&[0.0, 0.25, 0.5, 1.0]) } else { match r.below(5) { 0 => 0.0, _ => r.logu(1e-2, 3.0) } };
+    let (r1, r2) = (rad(r), rad(r));
+    let u = unit3(r, lat);
+    // an orthonormal frame (u, v, w); exact in lattice mode for the axis-aligned / 3-4-5 directions of `unit3`
+    let v = { let c = if u.x.abs() < 0.5 { d3::Vector::x() } else { d3::Vector::y() }; let t = u.cross(&c); if lat && (t.norm() - 1.0).abs() < 1e-12 { t } else { t.normalize() } };
+    let w = u.cross(&v);
+    let c1 = d3::gen_v(r, lat, 3.0);
+    let h1 = if lat { *r.pick(&[0.5, 1.0, 2.0, 4.0]) } else { r.logu(5e-2, 20.0) };
+    let h2 = if lat { *r.pick(&[0.5, 1.0, 2.0, 4.0]) } else { h1 * r.logu(0.1, 10.0) };
+    let (mut a1, mut b1) = (c1 - u * h1, c1 + u * h1);
+    let pred = if lat { *r.pick(&[0.0, 0.25, 0.5]) } else { *r.pick(&[0.0, 1e-3, 0.05, 0.2]) * (h1 + h2 + r1 + r2).min(2.0) };
+    let (mut a2w, mut b2w);
+    if fam == 2 {
+        let c2 = c1 + d3::gen_v(r, lat, 1.0) * (0.6 * (h1 + h2 + r1 + r2));
+        let d = unit3(r, lat);
+        a2w = c2 - d * h2; b2w = c2 + d * h2;
+    } else {
+        // direction of axis 2: `u` tilted within the (u, v) plane (coplanar / crossing) or towards `w` (skew, the normal direction)
+        let d = if fam == 1 { u } else if lat {
+            u + v * *r.pick(&[0.0, 0.125, -0.25, 0.5, 1.0]) + w * *r.pick(&[0.0, 0.0, 0.125, -0.5])
+        } else {
+            let t = match r.below(4) { 0 => r.logu(1e-9, 1e-4), 1 => r.logu(1e-3, 0.39), 2 => r.uniform(0.0, 1.6), _ => 0.0 } * if r.bool() { 1.0 } else { -1.0 };
+            let k = if r.bool() { 0.0 } else { r.uniform(-0.3, 0.3) };
+            u * t.cos() + v * t.sin() + w * k
+        };
+        let d = if r.bool() { d } else { -d };
+        let s = if lat { *r.pick(&[0.0, 0.25, -0.25, 0.5, -0.5, 1.0, -1.0, 1.25, -1.25]) } else {
+            match r.below(6) { 0 => 0.0, 1 => if r.bool() { 1.0 } else { -1.0 }, 2 => r.uniform(-1.5, 1.5), _ => r.uniform(-1.0, 1.0) } };
+        let gap = if lat { *r.pick(&[0.0, 0.25, -0.25, 0.5, 1.0]) } else {
+            match r.below(6) { 0 => r.uniform(-1e-6, 1e-6), 1 => pred + r.uniform(-1e-3, 1e-3), 2 => r.uniform(0.0, 1.5) * (pred + 0.05),
+                               _ => r.uniform(-0.9, 0.3) * (r1 + r2).max(0.05) } };
+        let lift = if r.below(8) == 0 { 0.0 } else { r1 + r2 + gap };                   // collinear / intersecting axes
+        let c2 = c1 + u * (s * (h1 + h2)) + w * lift;
+        a2w = c2 - d * h2; b2w = c2 + d * h2;
+    }
+    if fam == 3 {
+        match r.below(4) { 0 => { b1 = a1; } 1 => { b2w = a2w; } 2 => { b1 = a1; b2w = a2w; } _ => {} }
+        if !lat && r.below(4) == 0 { let e = d3::Vector::new(r.uniform(-1.0, 1.0), r.uniform(-1.0, 1.0), r.uniform(-1.0, 1.0)) * *r.pick(&[1e-9, 1e-8, 3e-8]); b1 = a1 + e; }
+    }
+    if r.below(8) == 0 { std::mem::swap(&mut a1, &mut b1); }
+    if r.below(8) == 0 { std::mem::swap(&mut a2w, &mut b2w); }
+    let a2 = pos12.inverse_transform_point(&d3::Point::from(a2w));
+    let b2 = pos12.inverse_transform_point(&d3::Point::from(b2w));
+    let npts = *r.pick(&[0usize, 0, 1, 2]);
+    let pts: Vec<_> = (0..npts).map(|_| (d3::gen_p(r, lat, 2.0), d3::gen_p(r, lat, 2.0), r.coord(lat, 1.0))).collect();
+    ("cap3".into(), format!("{} {} {} {} {} {} {} {} {}", d3::hiso(&pos12), d3::hp(&d3::Point::from(a1)), d3::hp(&d3::Point::from(b1)), hx(r1),
+        d3::hp(&a2), d3::hp(&b2), hx(r2), hx(pred), hman3(&unit3(r, lat), &unit3(r, lat), &pts)))
+}
+
 pub fn gen(r: &mut Rng, thorough: bool) -> Vec<(String, String)> {
     let k = if thorough { 10 } else { 1 };
     let mut v = Vec::new();
@@ -294,6 +356,7 @@ pub fn gen(r: &mut Rng, thorough: bool) -> Vec<(String, String)> {
         if it % 3 == 0 { v.push(gen_css2(r, lat, (it / 6) % 4)); }
     }
     for it in 0..300 * k { v.push(gen_cc3(r, it % 2 == 0, 12)); }
+    for it in 0..800 * k { v.push(gen_cap3(r, it % 2 == 0, match it % 8 { 0 | 1 | 2 | 3 => 0, 4 => 1, 5 | 6 => 2, _ => 3 })); }
     for it in 0..40 * k { for kind in 0..9 { v.push(gen_pfm3(r, it % 2 == 0, kind, 12)); } }
     v
 }
